@@ -28,7 +28,7 @@ func runC12(c *Ctx) {
 	rulePayloadStores(c, "R12.f")
 	// "counters reject non-integers and overflow" presupposes that the integer decoding itself does
 	ruleNumericAccessorsAs(c, "R12.g")
-	ruleValueRejections(c, "R12.h")
+	ruleValueRejections(c, "R12.h", derivedCommands...)
 	c.assume("primitive handler operations behave like Redis (the property grants this); ReverseBy's index arithmetic is in range only for len % step == 0, i.e. for member/score pairs")
 }
 
